@@ -12,10 +12,10 @@ TREE_REROOT = [Stream('c20.tree', 300, 30000, 'oracle', timeout=900, exhaustive=
 ITERATOR_CLONES = [Stream('c20.clone', 200, 20000, 'oracle', timeout=900, exhaustive='every corpus variant; clones at random positions of EntriesCursor, LineRows, OperationIter, CfiEntriesIter')]
 # model-kind streams for Model/EntryBuf.v: generated units (C02 spec encoder, 40% damaged) x operation histories
 ENTRYBUF_MODEL = [
-    Stream('c20.bufm', 6000, 300000, 'model', timeout=1500),
-    Stream('c20.curm', 5000, 250000, 'model', timeout=1500),
-    Stream('c20.treem', 5000, 250000, 'model', timeout=1500),
-    Stream('c20.linem', 5000, 250000, 'model', timeout=1500),
+    Stream('c20.bufm', 6000, 120000, 'model', timeout=1500),
+    Stream('c20.curm', 5000, 100000, 'model', timeout=1500),
+    Stream('c20.treem', 5000, 100000, 'model', timeout=1500),
+    Stream('c20.linem', 5000, 100000, 'model', timeout=1500),
 ]
 ABBREV_CACHE = [Stream('c20.cache', 400, 40000, 'oracle', timeout=900, exhaustive='every corpus variant x strategies none/Duplicates/All (populated once and twice), abbreviation offsets shared / damaged / invalid')]
 
